@@ -2,7 +2,7 @@
     neither lost nor closing), the next request of the stream has not been completely received: a complete request
     is never held back.  Also: the bytes consumed so far are exactly the lengths of the requests handed over. *)
 From Coq Require Import List NArith Bool Arith Lia.
-From C21 Require Import Model ProofsSim.
+From C21 Require Import Model ProofsSim ProofsLog.
 Import ListNotations.
 
 (** ---------- what reactions, losses and Deferred firings leave alone ---------- *)
@@ -257,9 +257,164 @@ Section Live.
     pose proof (IH t1 L1) as L2. destruct (trun eager sync reqs tmo abt t1 ops) as [t2 es]. exact L2.
   Qed.
 
+  (** the socket layer *)
+  Lemma settle_live k t1 evs pc : Live (t_st t1) -> Live (t_st (k_t (fst (settle eager sync reqs tmo abt k t1 evs pc)))).
+  Proof.
+    intros HL. unfold settle.
+    destruct (negb (net_paused (k_paused k) evs) && (0 <? k_queued k)%N).
+    - pose proof (tstep_live t1 (Op (Data (k_queued k))) HL) as L2.
+      destruct (tstep eager sync reqs tmo abt t1 (Op (Data (k_queued k)))) as [t2 e2]. cbn [fst] in L2.
+      destruct (negb (net_paused (net_paused (k_paused k) evs) e2) && pc && negb (s_lost (t_st t2))).
+      + pose proof (tstep_live t2 (Op Lose) L2) as L3. destruct (tstep eager sync reqs tmo abt t2 (Op Lose)) as [t3 e3]. exact L3.
+      + exact L2.
+    - destruct (negb (net_paused (k_paused k) evs) && pc && negb (s_lost (t_st t1))).
+      + pose proof (tstep_live t1 (Op Lose) HL) as L3. destruct (tstep eager sync reqs tmo abt t1 (Op Lose)) as [t3 e3]. exact L3.
+      + exact HL.
+  Qed.
+
+  Lemma sstep_live k o : Live (t_st (k_t k)) -> Live (t_st (k_t (fst (sstep eager sync reqs tmo abt k o)))).
+  Proof.
+    intros HL.
+    assert (Hgen : forall o' pc, Live (t_st (k_t (fst (let (t1, e1) := tstep eager sync reqs tmo abt (k_t k) o' in
+                                                          settle eager sync reqs tmo abt k t1 e1 pc))))).
+    { intros o' pc. pose proof (tstep_live (k_t k) o' HL) as L1. destruct (tstep eager sync reqs tmo abt (k_t k) o') as [t1 e1].
+      apply settle_live. exact L1. }
+    unfold sstep. destruct o as [o|dt]; [destruct o|]; try (apply Hgen).
+    - destruct (k_paused k); [|apply Hgen]. destruct (s_lost (t_st (k_t k)) || s_closing (t_st (k_t k))); exact HL.
+    - destruct (k_paused k); [exact HL|apply Hgen].
+  Qed.
+
+  Lemma srun_live ops : forall k, Live (t_st (k_t k)) -> Live (t_st (k_t (fst (srun eager sync reqs tmo abt k ops)))).
+  Proof.
+    induction ops as [|o ops IH]; intros k HL; cbn [srun]; [exact HL|].
+    pose proof (sstep_live k o HL) as L1. destruct (sstep eager sync reqs tmo abt k o) as [k1 e]. cbn [fst] in L1.
+    pose proof (IH k1 L1) as L2. destruct (srun eager sync reqs tmo abt k1 ops) as [k2 es]. exact L2.
+  Qed.
+
+  (** ---------- what the socket layer guarantees: nothing the peer did waits behind a transport that reads ---------- *)
+  Lemma lose0_lost s : s_lost (fst (lose0 sync s)) = true.
+  Proof.
+    unfold lose0. destruct (s_lost s) eqn:El; [exact El|].
+    destruct (s_inchan s); [|reflexivity].
+    destruct (nth_error (s_rq s) (pred (length (s_rq s)))) as [r|]; [|reflexivity].
+    match goal with |- context [fire0 sync ?i false ?l ?s2] =>
+      pose proof (fire_list_frame (react0 sync) (react0_frame sync) l i false s2) as F;
+      unfold fire0; destruct (fire_list (react0 sync) i false l s2) as [s3 e3] end.
+    cbn [fst] in *. destruct F as (_ & _ & _ & _ & F5 & _). apply F5. reflexivity.
+  Qed.
+
+  Lemma tstep_lose_lost t : s_lost (t_st (fst (tstep eager sync reqs tmo abt t (Op Lose)))) = true.
+  Proof.
+    cbn [tstep step]. pose proof (lose0_lost (t_st t)) as L. destruct (lose0 sync (t_st t)) as [s1 e1]. exact L.
+  Qed.
+
+  Definition Kinv (k : sst) : Prop :=
+    k_paused k = false -> k_queued k = 0%N /\ (k_peerclosed k = true -> s_lost (t_st (k_t k)) = true).
+
+  Lemma net_paused_app b a c : net_paused b (a ++ c) = net_paused (net_paused b a) c.
+  Proof. unfold net_paused. apply fold_left_app. Qed.
+
+  Lemma settle_K k t1 evs pc k' evs' : settle eager sync reqs tmo abt k t1 evs pc = (k', evs') ->
+    Kinv k' /\ k_peerclosed k' = pc /\ (exists e', evs' = evs ++ e' /\ k_paused k' = net_paused (k_paused k) evs').
+  Proof.
+    unfold settle. set (p := net_paused (k_paused k) evs).
+    destruct (negb p && (0 <? k_queued k)%N) eqn:Ec.
+    - apply andb_true_iff in Ec as [Ep _]. apply negb_true_iff in Ep.
+      destruct (tstep eager sync reqs tmo abt t1 (Op (Data (k_queued k)))) as [t2 e2].
+      destruct (negb (net_paused p e2) && pc && negb (s_lost (t_st t2))) eqn:Ed.
+      + pose proof (tstep_lose_lost t2) as L. destruct (tstep eager sync reqs tmo abt t2 (Op Lose)) as [t3 e3]. cbn [fst] in L.
+        intro E; inversion E; subst k' evs'; clear E. unfold Kinv. cbn [k_paused k_queued k_peerclosed k_t].
+        split; [intros _; split; [reflexivity|intros _; exact L]|]. split; [reflexivity|].
+        exists (e2 ++ e3). split; [reflexivity|]. rewrite !net_paused_app. reflexivity.
+      + intro E; inversion E; subst k' evs'; clear E. unfold Kinv. cbn [k_paused k_queued k_peerclosed k_t].
+        split; [|split; [reflexivity|exists (e2 ++ []); split; [reflexivity|rewrite !net_paused_app; reflexivity]]].
+        cbn [net_paused fold_left]. intros Hp. split; [reflexivity|]. intros Hpc. rewrite Hp, Hpc in Ed. cbn in Ed.
+        apply negb_false_iff in Ed. exact Ed.
+    - destruct (negb p && pc && negb (s_lost (t_st t1))) eqn:Ed.
+      + pose proof (tstep_lose_lost t1) as L. destruct (tstep eager sync reqs tmo abt t1 (Op Lose)) as [t3 e3]. cbn [fst] in L.
+        apply andb_true_iff in Ed as [Ed _]. apply andb_true_iff in Ed as [Ep _]. apply negb_true_iff in Ep. rewrite Ep in Ec. cbn in Ec.
+        intro E; inversion E; subst k' evs'; clear E. unfold Kinv. cbn [k_paused k_queued k_peerclosed k_t].
+        split; [intros _; split; [apply N.ltb_ge in Ec; lia|intros _; exact L]|]. split; [reflexivity|].
+        exists ([] ++ e3). split; [reflexivity|]. rewrite !net_paused_app. reflexivity.
+      + intro E; inversion E; subst k' evs'; clear E. unfold Kinv. cbn [k_paused k_queued k_peerclosed k_t].
+        split; [|split; [reflexivity|exists ([] ++ []); split; [reflexivity|rewrite !net_paused_app; reflexivity]]].
+        cbn [net_paused fold_left]. fold p. intros Hp. rewrite Hp in Ec, Ed. cbn in Ec, Ed. split; [apply N.ltb_ge in Ec; lia|].
+        intros Hpc. rewrite Hpc in Ed. cbn in Ed. apply negb_false_iff in Ed. exact Ed.
+  Qed.
+
+  Definition is_lose (o : top) : bool := match o with Op Lose => true | _ => false end.
+
+  Lemma sstep_K k o k' evs : Kinv k -> sstep eager sync reqs tmo abt k o = (k', evs) ->
+    Kinv k' /\ k_peerclosed k' = k_peerclosed k || is_lose o /\ k_paused k' = net_paused (k_paused k) evs.
+  Proof.
+    intros HK.
+    assert (Hgen : forall o' pc, (let (t1, e1) := tstep eager sync reqs tmo abt (k_t k) o' in
+                                  settle eager sync reqs tmo abt k t1 e1 pc) = (k', evs) ->
+                                 Kinv k' /\ k_peerclosed k' = pc /\ k_paused k' = net_paused (k_paused k) evs).
+    { intros o' pc. destruct (tstep eager sync reqs tmo abt (k_t k) o') as [t1 e1]. intro E.
+      destruct (settle_K _ _ _ _ _ _ E) as (A & B & e' & C & D). auto. }
+    unfold sstep. destruct o as [o|dt]; [destruct o|]; cbn [is_lose]; rewrite ?orb_false_r; try (apply Hgen).
+    - destruct (k_paused k) eqn:Ep; [|apply Hgen].
+      destruct (s_lost (t_st (k_t k)) || s_closing (t_st (k_t k))); intro E; inversion E; subst; clear E.
+      + split; [exact HK|]. split; [reflexivity|exact Ep].
+      + split; [intro C; discriminate C|]. split; reflexivity.
+    - rewrite orb_true_r. destruct (k_paused k) eqn:Ep; [|apply Hgen].
+      intro E; inversion E; subst; clear E. split; [intro C; discriminate C|]. split; reflexivity.
+  Qed.
+
+  Lemma srun_K ops : forall k ks logs, Kinv k -> srun eager sync reqs tmo abt k ops = (ks, logs) ->
+    Kinv ks /\ k_peerclosed ks = k_peerclosed k || existsb is_lose ops /\ k_paused ks = net_paused (k_paused k) (concat logs).
+  Proof.
+    induction ops as [|o ops IH]; intros k ks logs HK; cbn [srun].
+    - intro E; inversion E; subst. cbn. rewrite orb_false_r. auto.
+    - destruct (sstep eager sync reqs tmo abt k o) as [k1 e] eqn:Es. destruct (srun eager sync reqs tmo abt k1 ops) as [k2 es] eqn:Er.
+      intro E; inversion E; subst; clear E. destruct (sstep_K _ _ _ _ HK Es) as (K1 & P1 & Q1).
+      destruct (IH _ _ _ K1 Er) as (K2 & P2 & Q2). split; [exact K2|]. cbn [existsb concat].
+      rewrite P2, P1, Q2, Q1, net_paused_app, orb_assoc. auto.
+  Qed.
+
+  Lemma Kinv0 : Kinv (sst0 tmo).
+  Proof. intros _. split; [reflexivity|intro C; discriminate C]. Qed.
+
+  (** every history: the socket's reading flag is what the log says; and if the peer closed and reading is not paused
+      now, nothing is waiting and connectionLost has been delivered *)
+  Lemma final_socket ops :
+    let k := fst (srun eager sync reqs tmo abt (sst0 tmo) ops) in
+    let logs := snd (srun eager sync reqs tmo abt (sst0 tmo) ops) in
+    k_paused k = net_paused false (concat logs) /\
+    (net_paused false (concat logs) = false ->
+     k_queued k = 0%N /\ (In (Op Lose) ops -> s_lost (t_st (k_t k)) = true)).
+  Proof.
+    destruct (srun eager sync reqs tmo abt (sst0 tmo) ops) as [k logs] eqn:E. cbn [fst snd].
+    destruct (srun_K _ _ _ _ Kinv0 E) as (K & P & Q). cbn [sst0 k_paused k_peerclosed orb] in P, Q.
+    split; [exact Q|]. intro Hp. rewrite <- Q in Hp. destruct (K Hp) as [Kq Kl]. split; [exact Kq|].
+    intro Hin. apply Kl. rewrite P. apply existsb_exists. exists (Op Lose). split; [exact Hin|reflexivity].
+  Qed.
+
   Lemma live0 : Forall (fun q => (0 < q_len q)%N) reqs -> Live (t_st (tst0 tmo)).
   Proof.
     intro Hpos. unfold Live, Cons, tst0, st0. cbn. split; [reflexivity|]. intros _.
     destruct reqs as [|q r]; [exact I|]. cbn. inversion Hpos; subst. lia.
   Qed.
 End Live.
+
+Lemma final_peer_close (eager : N) (sync : bool) (reqs : list reqspec) (tmo abt : option N) (ops : list top) :
+  let k := fst (srun eager sync reqs tmo abt (sst0 tmo) ops) in
+  let log := concat (snd (srun eager sync reqs tmo abt (sst0 tmo) ops)) in
+  k_paused k = net_paused false log /\
+  (net_paused false log = false -> k_queued k = 0%N /\ (In (Op Lose) ops -> In EGone log)).
+Proof.
+  destruct (final_socket eager sync reqs tmo abt ops) as [A B]. split; [exact A|].
+  intro H. destruct (B H) as [C D]. split; [exact C|]. intro L. apply final_lost, D, L.
+Qed.
+
+Lemma final_live (eager : N) (sync : bool) (reqs : list reqspec) (tmo abt : option N) (ops : list top) :
+  Forall (fun q => (0 < q_len q)%N) reqs ->
+  let s := t_st (k_t (fst (srun eager sync reqs tmo abt (sst0 tmo) ops))) in
+  s_cons s = sumlen (firstn (length (s_rq s)) reqs) /\
+  (s_handling s = false /\ s_lost s = false /\ s_closing s = false ->
+   match nth_error reqs (length (s_rq s)) with
+   | Some q => (s_recv s < s_cons s + q_len q)%N
+   | None => True
+   end).
+Proof. intros Hpos. exact (srun_live eager sync reqs tmo abt ops (sst0 tmo) (live0 reqs tmo Hpos)). Qed.
